@@ -17,12 +17,12 @@ PLAN = {
     "C07": {
         "level": "model_checking",
         "engines": lambda tier: [
-            _e("script", "indep/loomdrv.py", "c07", also_build=[("loom", "loommc")]),
+            _e("script", "indep/loomdrv.py", "c07", also_build=[("loom", "loommc"), ("release", "corpusmc")]),
             _e("release", "stressmc", "c07"),
         ],
         "assumptions": [
             "loom explores the interleavings of mutex/condvar/thread operations of the real compression.rs and file.rs (built with --cfg jubako_verif_loom: loom Mutex/Condvar, loom thread instead of the rayon pool, 2-byte chunks); Arc stays std's (no scheduling point, sound); sequentially consistent exploration, preemption-bounded (bound completed reported per configuration)",
-            "the cluster cache (Mutex<LruCache>), the RwLock raw->plain switch and the OnceLock pack slots are not under loom: they are exercised by the free-running stress engine only (stressmc, labelled sampling, never the source of a 'held' verdict on its own)",
+            "engine B runs the real ContentPack reader under loom (cluster cache of capacity 1/2, cluster RwLock, decoder threads, shared FileSource; 2 readers, at most 3 decoder threads because of loom's 5-thread limit); the Container's OnceLock pack slots and VecCache are not under loom: only the free-running stress engine (stressmc, sampling) passes through them",
             "weak-memory effects beyond what loom models are out of reach",
         ],
     },
